@@ -574,7 +574,7 @@ soxr_error_t soxr_set_io_ratio(soxr_t p, double io_ratio, size_t slew_len)
   if (!p)                 return "invalid soxr_t pointer";
   if ((error = p->error)) return error;
   if (!p->num_channels)   return "must set # channels before O/I ratio";
-  if (io_ratio <= 0)      return "I/O ratio out-of-range";
+  if (!(io_ratio > 0))    return "I/O ratio out-of-range";
   if (!p->channel_ptrs) {
     p->io_ratio = io_ratio;
     return initialise(p);
